@@ -1176,6 +1176,7 @@ func parseJoin(state *pars.State, result *pars.Result) error {
 	}
 	state.Advance()
 	if err := multipleLocationParser(state, result); err != nil {
+		state.Pop()
 		return err
 	}
 	c, err := pars.Next(state)
@@ -1207,6 +1208,7 @@ func parseOrder(state *pars.State, result *pars.Result) error {
 	}
 	state.Advance()
 	if err := multipleLocationParser(state, result); err != nil {
+		state.Pop()
 		return err
 	}
 	c, err := pars.Next(state)
@@ -1267,7 +1269,8 @@ var parseComplementDefault = parseComplement(&ParseLocation)
 
 // AsLocation interprets the given string as a Location.
 func AsLocation(s string) (Location, error) {
-	result, err := ParseLocation.Parse(pars.FromString(s))
+	// The whole string is the location: what follows one is an error.
+	result, err := pars.Exact(ParseLocation).Parse(pars.FromString(s))
 	if err != nil {
 		return nil, err
 	}
